@@ -343,6 +343,10 @@ fn diag(m: &Machine) -> Value {
         "delivered_masks": t.delivered_masks,
         "call_depth": rt.state.call_depth(),
         "call_sub_level": rt.state.call_sub_level(),
+        // executor bookkeeping per call frame (not part of the bundle): page recorded by near CALLs, width of
+        // the innermost tracked return address
+        "call_frames": json!([rt.state.call_page_depth(), rt.state.peek_call_page(),
+                              rt.state.peek_call_return_width()]),
         "temps": temps,
         "kb_state": kb_state,
         "overlay_data": card,
